@@ -68,9 +68,13 @@ def run(R, only_cases=None):
     shards = 8
     chunks = [cases[i::shards] for i in range(shards)]
     from concurrent.futures import ThreadPoolExecutor
+    tmpdir = scratch / "tmp"
+    tmpdir.mkdir(parents=True, exist_ok=True)
 
     def one(chunk):
-        p = C.run_impl("impl_io.py", input_obj={"mode": "inert", "cases": [{"canary_dir": str(scratch / "cm"), "scratch": str(scratch)}] + chunk}, timeout=1200)
+        # a private TMPDIR: what is left behind in it can only come from the calls under observation
+        p = C.run_impl("impl_io.py", input_obj={"mode": "inert", "cases": [{"canary_dir": str(scratch / "cm"), "scratch": str(scratch)}] + chunk}, timeout=1200,
+                       extra_env={"TMPDIR": str(tmpdir)})
         if p.returncode != 0:
             raise RuntimeError("inert runner failed: " + p.stderr.decode(errors="replace")[-1500:])
         return json.loads(p.stdout)
